@@ -15,6 +15,7 @@ import (
 
 	"github.com/dtn7/dtn7-go/pkg/bpv7"
 	"github.com/dtn7/dtn7-go/pkg/cla"
+	"github.com/dtn7/dtn7-go/pkg/verifhook"
 )
 
 const dtlsrBroadcastAddress = "dtn://routing/dtlsr/broadcast/"
@@ -232,6 +233,7 @@ func (dtlsr *DTLSR) ReportFailure(bp BundleDescriptor, sender cla.ConvergenceSen
 	if !ok {
 		return
 	}
+	verifhook.At("routing.dtlsr.reportfailure.rmw")
 
 	for i := 0; i < len(sentEids); i++ {
 		if sentEids[i] == sender.GetPeerEndpointID() {
